@@ -1,0 +1,10 @@
+//go:build verif
+
+package oracles
+
+import "github.com/tikv/client-go/v2/internal/simhook"
+
+// VerifSetYieldHook installs (or, with nil, removes) the function called at the yield points of this
+// package. It is a method so that a simulator can find out at run time, with an interface assertion on
+// an oracle.Oracle value, whether the library was built with yield points.
+func (o *pdOracle) VerifSetYieldHook(f func(site string)) { simhook.Hook = f }
